@@ -198,8 +198,9 @@ def run_parser(cls, lines):
         return None, ex
 
 
-YAML_DOCS = [(["a: 1", "b: [x, y]"], {"a": 1, "b": ["x", "y"]}), (["- 1", "- k: v"], [1, {"k": "v"}]), (["k:", "  n: 2"], {"k": {"n": 2}})]
-YAML_NON = [["just a scalar"], ["a: [unclosed"], ["a: 1", " b: 2", "c"], ["42"],
+YAML_DOCS = [(["a: 1", "b: [x, y]"], {"a": 1, "b": ["x", "y"]}), (["- 1", "- k: v"], [1, {"k": "v"}]), (["k:", "  n: 2"], {"k": {"n": 2}}),
+             (["{}"], {}), (["[]"], []), (["--- {}"], {})]       # empty mappings / sequences are valid documents, not empty ones
+YAML_NON = [["just a scalar"], ["a: [unclosed"], ["a: 1", " b: 2", "c"], ["42"], ["0"], ["false"], ["''"], ["0.0"], ["0x0"],
             # well-formed YAML whose typed scalars cannot be built (the loader raises ValueError / KeyError, not a YAMLError)
             ["installed: 2019-02-30"], ["at: 2001-12-14 25:61:00"], ["when: 2001-13-01"], ["!!bool maybe"], ["n: !!int x1"], ["f: !!float abc"]]
 YAML_EMPTY = [[], ["# only a comment"], ["~"], ["null"]]
@@ -369,6 +370,31 @@ class YearLog(C.LogFileOutput):
     time_format = "%Y-%m-%d %H:%M:%S"
 
 
+class MixedListLog(C.LogFileOutput):
+    time_format = ["%Y-%m-%d %H:%M:%S", "%b %d %H:%M:%S"]        # some lines carry a year, some do not
+
+
+class MixedDictLog(C.LogFileOutput):
+    time_format = {"short": "%b %d %H:%M:%S", "long": "%Y-%m-%d %H:%M:%S"}
+
+
+class YearListLog(C.LogFileOutput):
+    time_format = ["%Y-%m-%d %H:%M:%S", "%Y/%m/%d %H:%M:%S"]
+
+
+LOG_KINDS = {False: NoYearLog, True: YearLog, "mixed-list": MixedListLog, "mixed-dict": MixedDictLog, "year-list": YearListLog}
+LOG_KIND_ORDER = [False, True, "mixed-list", "mixed-dict", "year-list"]
+
+
+def line_has_year(with_year, i):
+    """does line i carry a year? (in the mixed kinds every other line does)"""
+    if with_year in (False, True):
+        return with_year
+    if with_year == "year-list":
+        return True
+    return (i + (0 if with_year == "mixed-list" else 1)) % 2 == 0
+
+
 def resolve_year(mon, day, h, mi, s, th):
     """the documented meaning for logs without a year: the instant is taken in the threshold's year, unless that puts it more
     than eleven months (330 days) after / before the threshold, in which case it belongs to the previous / next year"""
@@ -403,11 +429,11 @@ def after_run(picks, thi, with_year):
         h, mi, s = map(int, hms.split(":"))
         real = resolve_year(mon, day, h, mi, s, th)
         stamps.append(real)
-        if with_year:
-            lines.append("%s message %d" % (real.strftime("%Y-%m-%d %H:%M:%S"), i))
+        if line_has_year(with_year, i):
+            lines.append("%s message %d" % (real.strftime("%Y/%m/%d %H:%M:%S" if with_year == "year-list" and i % 2 else "%Y-%m-%d %H:%M:%S"), i))
         else:
             lines.append("%s host message %d" % (txt, i))
-    log = (YearLog if with_year else NoYearLog)(ctx(lines))
+    log = LOG_KINDS[with_year](ctx(lines))
     got = [lines.index(d["raw_message"]) for d in log.get_after(th)]
     exp = []
     including = False
@@ -425,6 +451,11 @@ def after_run(picks, thi, with_year):
 def classify(case):
     if case.get("kind") == "after" and not case["with_year"] and 7 in case["picks"]:
         return "get_after-feb29-line-without-year-raises-ValueError"
+    if case.get("kind") == "after" and case["with_year"] in ("mixed-list", "mixed-dict") and THRESHOLDS[case["threshold"]][0] % 4 and \
+            any(p_ == 7 and line_has_year(case["with_year"], i) for i, p_ in enumerate(case["picks"])):
+        # a list / dict of formats of which one has no year: every stamp, also one that carries a leap year's Feb 29, gets the
+        # threshold's year substituted; with a threshold in a common year that raises
+        return "get_after-feb29-line-with-year-under-mixed-formats-raises-ValueError"
     return None
 
 
@@ -432,11 +463,18 @@ def make_after(nlines):
     def fn(en):
         picks = [en.choice("pick%d" % i, len(INSTANTS) + 1) - 1 for i in range(nlines)]
         thi = en.choice("threshold", len(THRESHOLDS))
-        with_year = en.flag("with_year")
+        with_year = LOG_KIND_ORDER[en.choice("with_year", len(LOG_KIND_ORDER))]
         case = lambda mv: {"kind": "after", "picks": picks, "threshold": thi, "with_year": with_year}  # noqa
         en.note_sample(case)
-        if with_year and any(p == 7 for p in picks) and resolve_year(2, 29, 12, 0, 0, datetime.datetime(*THRESHOLDS[thi])) is None:
-            raise core.Abort()
+        for i, p_ in enumerate(picks):
+            if p_ != 7:
+                continue
+            # Feb 29: with a year only where the year it resolves to has one; without a year only in the plain year-less log (the recorded finding)
+            if line_has_year(with_year, i):
+                if resolve_year(2, 29, 12, 0, 0, datetime.datetime(*THRESHOLDS[thi])) is None:
+                    raise core.Abort()
+            elif with_year is not False:
+                raise core.Abort()
         try:
             got, exp = after_run(picks, thi, with_year)
             err = None
@@ -474,8 +512,8 @@ def obligations(tier):
                    bounds={"keywords": META_TERMS, "query": "one keyword (string or list) or two", "check": ["all", "any"], "lines": "1-2 symbolic strings of 1-%d chars over %r" % (3 if thorough else 2, SEARCH_ALPHA),
                            "entries": ["get", "keep_scan", "last_scan", "token_scan"]}, encoded=enc[4:10], budget_s=600 if thorough else 120, replay="search", check_sample=True),
         Obligation("O4-time-search", make_after(4 if thorough else 3), ["time-search"],
-                   desc="get_after on logs whose lines carry one of 8 instants (around a year boundary, the 330-day windows and a leap day) or are continuation lines; with and without year",
-                   bounds={"lines": 4 if thorough else 3, "instants": INSTANTS, "thresholds": [str(t) for t in THRESHOLDS]},
+                   desc="get_after on logs whose lines carry one of 8 instants (around a year boundary, the 330-day windows and a leap day) or are continuation lines; with and without year, and with a list / dict of formats (all with a year, or every other line without one)",
+                   bounds={"lines": 4 if thorough else 3, "instants": INSTANTS, "thresholds": [str(t) for t in THRESHOLDS], "time_format": ["'%b %d %H:%M:%S'", "'%Y-%m-%d %H:%M:%S'", "list mixing both", "dict mixing both", "list of two formats with a year"]},
                    stubs=["finite-domain choice of instants: strptime and datetime arithmetic are C code and run natively (not symbolic time)"],
                    outside=["symbolic timestamps", "the format->regex table beyond these formats"], encoded=enc[10:], budget_s=900 if thorough else 150, replay="after",
                    check_sample=True, classify=classify),
